@@ -293,7 +293,7 @@ def gen_lf(rng, li, max_frames=30, names_pool=None, origin=None):
                 dims = rng.wpick([(6, [1]), (2, [rng.randrange(2, 6)]), (1, [rng.randrange(2, 4), rng.randrange(2, 4)]), (1, [1, 1])])
             channels.append({'name': name, 'rep': rep, 'dims': dims, 'units': rng.pick(UNITS_POOL), 'long': name + ' long name'})
             idx.append(len(channels) - 1)
-        nrows = rng.wpick([(1, 1), (2, rng.randrange(2, 5)), (5, rng.randrange(3, max_frames + 1))])
+        nrows = rng.wpick([(1, 1), (2, rng.randrange(2, 5)), (5, rng.randrange(min(3, max_frames), max_frames + 1))])
         x0 = rng.pick([100.0, 2889.4, 0.0, 5000.0, 12.5])
         dx = rng.pick([0.5, 1.5, -0.25, 0.1524, 1.0, 10.0])
         fno = rng.pick([1, 1, 1, 0, 7])
